@@ -49,6 +49,9 @@ TRUSTED_BASE = [
     "lookup outside the iteration's frame `unsupported` rather than a verdict",
     "assumed contracts of torch.cat (dim 0), einops.rearrange/repeat, torch.gather, torch.distributions (a draw is an uninterpreted value in the support), "
     "numpy.eye / ones / transpose and scipy.linalg.block_diag modelled as tensors; contextvars.ContextVar, heapq.merge, functools.cache as memoisation",
+    "iteration order of sets: arbitrary (fresh enumeration per iteration) for SYMBOLIC sets of ints; a set whose elements the engine holds concretely "
+    "(heap objects, concrete ints) is iterated in the engine's own CPython order, i.e. one order among those the real run may take",
+    "hash(): an uninterpreted function of the value (of the set for sets of ints, of length and elements in order for tuples of ints); identity otherwise",
     "obligations on circuit / graph TEMPLATES are unbounded in every integer, set and tensor but bounded in the shape of the graph (the template)",
 ]
 
